@@ -41,11 +41,18 @@ def wr(p, v, k=0):
 
 class Alloc:
     """byte accounting of the table's allocator (allocate<T>(n) / deallocate(p, n))"""
-    def __init__(self, limit_elems=1 << 22): self.live = {}; self.cur = 0; self.peak = 0; self.log = []; self.limit = limit_elems; self.news = []; self.null_deallocs = 0
+    def __init__(self, limit_elems=1 << 22, faults=None):
+        self.live = {}; self.cur = 0; self.peak = 0; self.log = []; self.limit = limit_elems; self.news = []; self.null_deallocs = 0
+        self.faults = faults          # shared AllocFaults: injection of one std::bad_alloc (only in functions extracted with R31)
     def install(self, it):
         def h_alloc(it_, a):
             es, n = a
             if n > self.limit: raise AllocTooLarge("allocate of %d elements of %d bytes" % (n, es))
+            f = self.faults
+            if f is not None and f.enabled:
+                k = f.count; f.count += 1
+                if k == f.fail_at:
+                    it_.globals["vp_thrown"].cells[0] = 1; f.fired = True; return G.NULL      # std::bad_alloc
             o = it_.new_obj("alloc", n); self.live[id(o)] = (o, es * n); self.cur += es * n; self.peak = max(self.peak, self.cur); self.log.append(("allocate", es, n)); return G.Ptr(o, 0)
         def h_dealloc(it_, a):
             p, n = a
@@ -62,6 +69,8 @@ class Alloc:
         it.hooks.update(vp_allocate=h_alloc, vp_deallocate=h_dealloc, vp_new=h_new)
 
 class AllocTooLarge(G.ExecError): pass
+class AllocFaults:
+    def __init__(self, fail_at=None): self.fail_at = fail_at; self.count = 0; self.enabled = False; self.fired = False
 
 def install_algorithms(it):
     def span(f, l):
